@@ -189,27 +189,32 @@ func rulesC07(c *Ctx) {
 		// where the transport-filtered list is kept: found by role (the field that receives the result of
 		// filterSupportedVersions(t), directly or through a local), and it must be per-session state
 		var sv *types.Var
-		fsvLocal := sc.VarFromCall(fsv, 0)
+		tparam := types.Object(sc.ParamOfNamed(pM, "Transport"))
+		// the value may reach the session through locals, and through a memo kept in the server (a lookup keyed by
+		// something derived from the transport); c07sources follows it back to the calls that produced it
+		srcOf := func(e ast.Expr) []c07source { return c07sources(sc, fsv, tparam, e, 0) }
 		fromFilter := func(e ast.Expr) bool {
 			if e == nil {
 				return false
 			}
-			if ce, ok := ast.Unparen(e).(*ast.CallExpr); ok && sc.IsCallTo(ce, fsv) {
-				return sc.ObjOf(ce.Args[0]) == types.Object(sc.ParamOfNamed(pM, "Transport"))
-			}
-			if fsvLocal != nil && sc.ObjOf(e) == fsvLocal {
-				if _, isField := fsvLocal.(*types.Var); isField && !fsvLocal.(*types.Var).IsField() {
-					for _, call := range sc.CallsIn(sc.Body, fsv, false) {
-						return sc.ObjOf(call.Args[0]) == types.Object(sc.ParamOfNamed(pM, "Transport"))
-					}
+			srcs := srcOf(e)
+			for _, s := range srcs {
+				if s.kind == c07Unknown || (s.kind == c07Filter && !s.ofTransport) {
+					return false
 				}
 			}
-			return false
+			return len(srcs) > 0
 		}
+		var memos []c07source
 		for _, w := range Writes(sc.Body, false) {
 			if sel, isSel := ast.Unparen(w.LHS).(*ast.SelectorExpr); isSel && fromFilter(w.RHS) {
 				if fld, isF := sc.ObjOf(sel).(*types.Var); isF && fld.IsField() {
 					sv = fld
+					for _, s := range srcOf(w.RHS) {
+						if s.kind == c07Memo {
+							memos = append(memos, s)
+						}
+					}
 					c.Check(isNamedType(sc.TypeOf(sel.X), modPath+"/"+pM, "ServerSession"), "Server.Connect:filtered-versions-are-per-session", sc, w.Stmt, "the list of versions the transport can serve is stored in the session created for that transport (it is written to %s): state shared by all sessions of a server would let one connection's transport decide what another session's discover advertises", sc.FieldPath(sel))
 				}
 			}
@@ -232,8 +237,12 @@ func rulesC07(c *Ctx) {
 		}
 		// the transport is asked while the session lock is held: the read goroutine is already running, and a
 		// server/discover that arrives meanwhile must wait for the filtered list instead of finding nil (= every SDK version)
-		for _, call := range sc.CallsIn(sc.Body, fsv, false) {
-			c.Check(sc.heldLocal(call)["ServerSession.mu"], "Server.Connect:filter-evaluated-under-session-lock", sc, call, "filterSupportedVersions(t) runs inside the critical section that stores its result")
+		if len(memos) == 0 {
+			for _, call := range sc.CallsIn(sc.Body, fsv, false) {
+				c.Check(sc.heldLocal(call)["ServerSession.mu"], "Server.Connect:filter-evaluated-under-session-lock", sc, call, "filterSupportedVersions(t) runs inside the critical section that stores its result")
+			}
+		} else {
+			c07memoChecks(c, sc, fsv, tparam, memos, fromFilter)
 		}
 		c.Check(okStore, "Server.Connect:stores-filtered-versions", sc, nil, "supportedVersions = filterSupportedVersions(t) is stored under ss.mu before every successful return")
 		fs := c.Fn(pM, "", "filterSupportedVersions")
@@ -497,6 +506,13 @@ func rulesC07(c *Ctx) {
 						c.Ok(key, f, id, "element read")
 						return
 					}
+				case *ast.AssignStmt:
+					// parked in a local that is replaced by its own clone before anything else can see it: every later use of the
+					// local is either a read-only use (the clone itself) or comes after `local = slices.Clone(local)`
+					if c07clonedBeforeUse(f, p, id, readOnly) {
+						c.Ok(key, f, id, "held in a local that is cloned before any hand-out")
+						return
+					}
 				case *ast.KeyValueExpr:
 					// a composite literal handed straight to json.Marshal
 					if cl, ok := f.ParentOf(p).(*ast.CompositeLit); ok {
@@ -603,4 +619,334 @@ func sendVertices(f *Func, g *Graph, fld *types.Var) []int {
 		out = append(out, g.VertexOf(s))
 	}
 	return out
+}
+
+// ---- where the transport-filtered version list of a session comes from ---------------------------------------
+
+const (
+	c07Unknown = iota
+	c07Filter  // filterSupportedVersions(x)
+	c07Memo    // a lookup in state of the Server (shared by all its sessions)
+)
+
+type c07source struct {
+	kind        int
+	ofTransport bool          // c07Filter: x is the transport being connected
+	call        *ast.CallExpr // the filter call, or the method call on the memo (nil for an index expression)
+	key         ast.Expr      // c07Memo: the key of the lookup
+	node        ast.Node
+}
+
+// c07transportAliases: the transport parameter and the per-clause variables of type switches on it.
+func c07transportAliases(f *Func, tparam types.Object) map[types.Object]bool {
+	out := map[types.Object]bool{tparam: true}
+	ast.Inspect(f.Body, func(n ast.Node) bool {
+		ts, ok := n.(*ast.TypeSwitchStmt)
+		if !ok {
+			return true
+		}
+		as, ok := ts.Assign.(*ast.AssignStmt)
+		if !ok || len(as.Rhs) != 1 {
+			return true
+		}
+		ta, ok := ast.Unparen(as.Rhs[0]).(*ast.TypeAssertExpr)
+		if !ok || f.ObjOf(ta.X) != tparam {
+			return true
+		}
+		for _, cl := range ts.Body.List {
+			if o := f.Info().Implicits[cl]; o != nil {
+				out[o] = true
+			}
+		}
+		return true
+	})
+	return out
+}
+
+// c07serverState reports whether e is a field of the Server (s.f, possibly deeper): state every session shares.
+func c07serverState(f *Func, e ast.Expr) bool {
+	for {
+		sel, ok := ast.Unparen(e).(*ast.SelectorExpr)
+		if !ok {
+			return false
+		}
+		if v, isV := f.ObjOf(sel).(*types.Var); isV && v.IsField() && isNamedType(f.TypeOf(sel.X), modPath+"/"+pM, "Server") {
+			return true
+		}
+		e = sel.X
+	}
+}
+
+// c07sources follows a value back through locals, type assertions and tuple results to the calls that produce it.
+func c07sources(f *Func, fsv *types.Func, tparam types.Object, e ast.Expr, depth int) []c07source {
+	if e == nil || depth > 6 {
+		return []c07source{{kind: c07Unknown, node: e}}
+	}
+	switch x := ast.Unparen(e).(type) {
+	case *ast.TypeAssertExpr:
+		return c07sources(f, fsv, tparam, x.X, depth+1)
+	case *ast.CallExpr:
+		if f.IsCallTo(x, fsv) && len(x.Args) == 1 {
+			return []c07source{{kind: c07Filter, ofTransport: c07transportAliases(f, tparam)[f.ObjOf(x.Args[0])], call: x, node: x}}
+		}
+		if lit, ok := ast.Unparen(x.Fun).(*ast.FuncLit); ok && len(x.Args) == 0 {
+			// an immediately invoked literal (a helper that defers, expanded at its call): what it returns
+			var out []c07source
+			if lf := f.LitFor(lit); lf != nil {
+				for _, r := range lf.Returns() {
+					if len(r.Results) != 1 {
+						return []c07source{{kind: c07Unknown, node: r}}
+					}
+					out = append(out, c07sources(f, fsv, tparam, r.Results[0], depth+1)...)
+				}
+			}
+			if len(out) > 0 {
+				return out
+			}
+			break
+		}
+		if sel, ok := ast.Unparen(x.Fun).(*ast.SelectorExpr); ok && len(x.Args) >= 1 && c07serverState(f, sel.X) {
+			return []c07source{{kind: c07Memo, call: x, key: x.Args[0], node: x}}
+		}
+	case *ast.IndexExpr:
+		if c07serverState(f, x.X) {
+			return []c07source{{kind: c07Memo, key: x.Index, node: x}}
+		}
+	case *ast.Ident:
+		obj := f.ObjOf(x)
+		v, isV := obj.(*types.Var)
+		if !isV || v.IsField() || obj == tparam {
+			break
+		}
+		var out []c07source
+		for _, w := range Writes(f.Body, true) {
+			if f.ObjOf(w.LHS) != obj {
+				continue
+			}
+			rhs := w.RHS
+			if rhs == nil {
+				// first result of a tuple-valued call or comma-ok form: v, ok := m.Load(k) / m[k]
+				if as, ok := w.Stmt.(*ast.AssignStmt); ok && len(as.Rhs) == 1 && len(as.Lhs) >= 1 && as.Lhs[0] == w.LHS {
+					rhs = as.Rhs[0]
+				}
+			}
+			if rhs == nil {
+				if _, isSpec := w.Stmt.(*ast.ValueSpec); isSpec {
+					continue // var v []string
+				}
+				out = append(out, c07source{kind: c07Unknown, node: w.Stmt})
+				continue
+			}
+			out = append(out, c07sources(f, fsv, tparam, rhs, depth+1)...)
+		}
+		if len(out) > 0 {
+			return out
+		}
+	}
+	return []c07source{{kind: c07Unknown, node: e}}
+}
+
+// c07memoChecks: the session's list is taken from a memo in the server. The memo is keyed; two transports that
+// map to the same key get the same list, so the key has to determine everything a transport's
+// SupportsProtocolVersion depends on: every receiver field such an implementation reads must be part of the key
+// (or the transport type must not be memoised at all).
+func c07memoChecks(c *Ctx, sc *Func, fsv *types.Func, tparam types.Object, memos []c07source, fromFilter func(ast.Expr) bool) {
+	aliases := c07transportAliases(sc, tparam)
+	// what is put into the memo is the filter result of the transport being connected
+	for _, m := range memos {
+		if m.call != nil && len(m.call.Args) == 2 {
+			c.Check(fromFilter(m.call.Args[1]), "Server.Connect:memo-stores-filter-result", sc, m.call, "the value memoised for a key is filterSupportedVersions of the transport being connected")
+		}
+	}
+	// ingredients of the keys: the key expressions, what is assigned to the key local, and to its fields
+	var ingredients []ast.Expr
+	var addKey func(e ast.Expr, depth int)
+	addKey = func(e ast.Expr, depth int) {
+		ingredients = append(ingredients, e)
+		id, ok := ast.Unparen(e).(*ast.Ident)
+		if !ok || depth > 3 {
+			return
+		}
+		obj := sc.ObjOf(id)
+		if obj == nil {
+			return
+		}
+		for _, w := range Writes(sc.Body, true) {
+			if w.RHS == nil {
+				continue
+			}
+			if sc.ObjOf(w.LHS) == obj {
+				addKey(w.RHS, depth+1)
+			} else if sel, isSel := ast.Unparen(w.LHS).(*ast.SelectorExpr); isSel && sc.ObjOf(sel.X) == obj {
+				addKey(w.RHS, depth+1)
+			}
+		}
+	}
+	for _, m := range memos {
+		addKey(m.key, 0)
+	}
+	keyFields := map[types.Object]bool{}
+	for _, e := range ingredients {
+		ast.Inspect(e, func(n ast.Node) bool {
+			if sel, ok := n.(*ast.SelectorExpr); ok {
+				if v, isV := sc.ObjOf(sel).(*types.Var); isV && v.IsField() && aliases[sc.ObjOf(sel.X)] {
+					keyFields[v] = true
+				}
+			}
+			return true
+		})
+	}
+	// which transport types reach the memo: named in a clause of a type switch on the transport that does not answer
+	// by probing directly; without such a switch every type does
+	var switches []*ast.TypeSwitchStmt
+	ast.Inspect(sc.Body, func(n ast.Node) bool {
+		if ts, ok := n.(*ast.TypeSwitchStmt); ok {
+			var x ast.Expr
+			switch a := ts.Assign.(type) {
+			case *ast.AssignStmt:
+				if len(a.Rhs) == 1 {
+					x = a.Rhs[0]
+				}
+			case *ast.ExprStmt:
+				x = a.X
+			}
+			if x != nil {
+				if ta, ok := ast.Unparen(x).(*ast.TypeAssertExpr); ok && sc.ObjOf(ta.X) == tparam {
+					switches = append(switches, ts)
+				}
+			}
+		}
+		return true
+	})
+	admitted := func(T *types.Named) tri {
+		if len(switches) == 0 {
+			return triTrue
+		}
+		res := triUnknown
+		for _, ts := range switches {
+			for _, st := range ts.Body.List {
+				cl := st.(*ast.CaseClause)
+				for _, te := range cl.List {
+					if namedOf(sc.TypeOf(te)) != T {
+						continue
+					}
+					direct := false
+					for _, s := range cl.Body {
+						if len(sc.CallsIn(s, fsv, false)) > 0 {
+							direct = true
+						}
+					}
+					if direct {
+						return triFalse
+					}
+					res = triTrue
+				}
+			}
+		}
+		return res
+	}
+	for _, f := range c.P.FuncsIn(pM) {
+		if f.Obj == nil || f.Obj.Name() != "SupportsProtocolVersion" || f.Recv() == nil {
+			continue
+		}
+		T := namedOf(f.Recv().Type())
+		recv := types.Object(f.Recv())
+		var reads []*types.Var
+		inspectNoLit(f.Body, func(n ast.Node) {
+			if sel, ok := n.(*ast.SelectorExpr); ok && f.ObjOf(sel.X) == recv {
+				if v, isV := f.ObjOf(sel).(*types.Var); isV && v.IsField() {
+					reads = append(reads, v)
+				}
+			}
+		})
+		for _, fld := range reads {
+			key := "Server.Connect:memo-key-covers:" + T.Obj().Name() + "." + fld.Name()
+			detail := "the answer of (*" + T.Obj().Name() + ").SupportsProtocolVersion depends on the field " + fld.Name() + " of the instance; a list memoised in the server for this transport is shared by every transport with the same key, so the key must contain that field (otherwise the first connection decides what later ones with another setting advertise)"
+			switch {
+			case keyFields[fld]:
+				c.Ok(key, sc, nil, "%s", detail)
+			case admitted(T) == triFalse:
+				c.Ok(key, sc, nil, "this transport type is probed directly, not memoised; %s", detail)
+			case admitted(T) == triTrue:
+				c.Fail(key, sc, memos[0].node, "%s", detail)
+			default:
+				c.Undecided(key, sc, memos[0].node, "cannot tell whether this transport type reaches the memo; %s", detail)
+			}
+		}
+	}
+	// C07-J's window (the transport is asked, or the memo read, before ss.mu is taken while the read loop already runs)
+	// is a property of the direct design; with a memo the list is looked up, not computed, and the rule does not decide it
+	c.Undecided("Server.Connect:filter-evaluated-under-session-lock", sc, memos[0].node, "the session's version list comes from a per-server memo consulted before ss.mu is taken; whether a server/discover dispatched in that window can still find the unset list is not decided for this design")
+}
+
+// c07clonedBeforeUse: as assigns the table (id, the whole right-hand side) to a local variable; every use of that
+// local the assignment can reach is a read-only call argument or is dominated by a later `local = slices.Clone(…)`.
+func c07clonedBeforeUse(f *Func, as *ast.AssignStmt, id *ast.Ident, readOnly map[string]bool) bool {
+	if f.Lit != nil || len(as.Lhs) != 1 || len(as.Rhs) != 1 || ast.Unparen(as.Rhs[0]) != ast.Expr(id) {
+		return false
+	}
+	lid, ok := ast.Unparen(as.Lhs[0]).(*ast.Ident)
+	if !ok {
+		return false
+	}
+	v, isV := f.ObjOf(lid).(*types.Var)
+	if !isV || v.IsField() || v.Parent() == nil || v.Parent() == v.Pkg().Scope() {
+		return false
+	}
+	// not captured by a literal
+	captured := false
+	for _, l := range f.AllLits() {
+		ast.Inspect(l.Body, func(n ast.Node) bool {
+			if x, ok := n.(*ast.Ident); ok && f.Info().Uses[x] == types.Object(v) {
+				captured = true
+			}
+			return true
+		})
+	}
+	if captured {
+		return false
+	}
+	g := f.Graph()
+	av := g.VertexOf(as)
+	var clones []int
+	for _, w := range Writes(f.Body, false) {
+		if f.ObjOf(w.LHS) != types.Object(v) || w.RHS == nil || w.Stmt == ast.Node(as) {
+			continue
+		}
+		if ce, ok := ast.Unparen(w.RHS).(*ast.CallExpr); ok {
+			if fn := f.Callee(ce); fn != nil && fn.FullName() == "slices.Clone" && g.ReachableFrom(av)[g.VertexOf(w.Stmt)] && !g.ReachableFrom(g.VertexOf(w.Stmt))[av] {
+				clones = append(clones, g.VertexOf(w.Stmt))
+			}
+		}
+	}
+	okAll := true
+	inspectNoLit(f.Body, func(n ast.Node) {
+		x, ok := n.(*ast.Ident)
+		if !ok || f.Info().Uses[x] != types.Object(v) {
+			return
+		}
+		uv := g.VertexOf(x)
+		if uv == av || !g.ReachableFrom(av)[uv] {
+			return
+		}
+		if call, ok := f.ParentOf(x).(*ast.CallExpr); ok {
+			if fn := f.Callee(call); (fn != nil && readOnly[fn.FullName()]) || f.BuiltinName(call) == "len" {
+				return
+			}
+		}
+		if a2, ok := f.ParentOf(x).(*ast.AssignStmt); ok {
+			for _, l := range a2.Lhs {
+				if l == ast.Expr(x) {
+					return // overwritten
+				}
+			}
+		}
+		for _, cv := range clones {
+			if cv != uv && g.Dominates(cv, uv) {
+				return
+			}
+		}
+		okAll = false
+	})
+	return okAll && len(clones) > 0
 }
